@@ -12,7 +12,7 @@
 
 static fiber_mutex_t M;
 static fiber_cond_t C;
-static int W, mode, hold, extra, rewait;
+static int W, mode, hold, extra, rewait, early;
 static int g_registered, g_returned, g_credits, g_owner = -1, g_sigdone;
 
 GHOST static void own(int id) {
@@ -67,6 +67,12 @@ static void wait_registered(int id, int n, int keep) {
 
 static void* signaller(void* p) {
   int id = 9;
+  // -Dearly=k: k signals are issued without looking whether anybody waits (they may race with
+  // a waiter that is just registering, or hit an empty condition variable); each is a credit.
+  for (int k = 0; k < early; k++) {
+    credit(1);
+    fiber_cond_signal(&C);
+  }
   if (mode == 0) {  // W signals (re-wait: one registration round per signal)
     int total = W * (1 + rewait);
     for (int k = 0; k < total; k++) {
@@ -88,6 +94,11 @@ static void* signaller(void* p) {
 static int at_quiescence(void) {
   int expect = mode == 0 ? W * (1 + rewait) : W + extra;
   if (!g_sigdone) fmc_fail("cond: the signaller itself is stuck");
+  // an early signal that found a waiter consumed its registration: the targeted signal for that
+  // registration is then aimed at nobody. What must hold: at least `expect` credits were aimed at
+  // registered waiters in total only when early==0; with early signals every waiter that is still
+  // blocked must be one for which no later signal was issued - here all W waiters get a targeted
+  // signal after registering, so with re-registration impossible (no rewait) all W must return.
   if (g_returned < expect)
     fmc_fail("cond: lost wake-up: %d signal/broadcast credits were issued to waiters that had begun waiting but only %d returned", expect, g_returned);
   int still = (W + extra) * (1 + rewait) - g_returned;
@@ -106,6 +117,7 @@ int harness_main(void) {
   hold = fmc_param("hold", 1);
   extra = fmc_param("extra", 0);  // an additional waiter no signal is issued for (mode 0) / also woken (mode 1)
   rewait = fmc_param("rewait", 0);
+  early = fmc_param("early", 0);   // unconditional signals before the targeted ones
   rt_start();
   fiber_mutex_init(&M);
   fiber_cond_init(&C);
